@@ -198,7 +198,8 @@ ssize_t __wrap_coap_socket_send(coap_socket_t *sock, coap_session_t *session, co
 }
 
 /* the datagram the next wrapped recv hands out */
-static struct { const uint8_t *data; size_t len; int have; int icmp; coap_address_t src; int have_src; } sim_rx;
+static struct { const uint8_t *data; size_t len; int have; int icmp; coap_address_t src; int have_src;
+                coap_address_t dst; int have_dst;   /* destination address the datagram was sent to (multicast group) */ } sim_rx;
 
 ssize_t __wrap_coap_socket_recv(coap_socket_t *sock, coap_packet_t *packet) {
   if ((sock->flags & COAP_SOCKET_CAN_READ) == 0) return -1;
@@ -211,6 +212,8 @@ ssize_t __wrap_coap_socket_recv(coap_socket_t *sock, coap_packet_t *packet) {
   packet->length = sim_rx.len;
   packet->ifindex = 0;
   if (sim_rx.have_src) coap_address_copy(&packet->addr_info.remote, &sim_rx.src);
+  /* like IP_PKTINFO in the real coap_socket_recv(): the address the datagram was addressed to */
+  if (sim_rx.have_dst) { coap_address_copy(&packet->addr_info.local, &sim_rx.dst); sim_rx.have_dst = 0; }
   return (ssize_t)sim_rx.len;
 }
 
@@ -238,6 +241,15 @@ static void sim_inject_endpoint(coap_endpoint_t *ep, const coap_address_t *src, 
   sim_rx.data = data; sim_rx.len = len; sim_rx.have = 1; sim_rx.icmp = 0;
   sim_rx.have_src = 1; coap_address_copy(&sim_rx.src, src);
   sim_epoll_in(ep->context, &ep->sock);
+}
+
+/* deliver bytes from src to a listening endpoint as a datagram that was addressed to dst (e.g. a multicast group:
+ * session->addr_info.local becomes dst, which is what coap_is_mcast() looks at) */
+static void sim_inject_endpoint_dst(coap_endpoint_t *ep, const coap_address_t *src, const coap_address_t *dst,
+                                    const uint8_t *data, size_t len) {
+  sim_rx.have_dst = 1; coap_address_copy(&sim_rx.dst, dst);
+  sim_inject_endpoint(ep, src, data, len);
+  sim_rx.have_dst = 0;
 }
 
 /* route a captured datagram to whoever owns its destination address in this process; 1 if delivered */
@@ -356,7 +368,7 @@ static void sim_reset(void) {
   sim_loglen = 0; if (sim_logbuf) sim_logbuf[0] = 0;
   sim_nsess = sim_neps = sim_nctx = 0;
   sim_prng_n = sim_prng_pos = 0; sim_prng_fill = 0;
-  sim_rx.have = 0; sim_rx.icmp = 0;
+  sim_rx.have = 0; sim_rx.icmp = 0; sim_rx.have_dst = 0;
   sim_send_result_override = 0;
   sim_response_verdict = COAP_RESPONSE_OK;
 }
